@@ -480,7 +480,8 @@ def run_case(ctx, t, gen_by, date, tags=(), label=None, want_text=True, opts=Non
     inp = opts.get("expect") or table_input(t)
     date_s = (FIXED_NOW if date is None else date).isoformat()
     case = {"table": inp, "generated_by": gen_by, "date": date_s, "label": label,
-            "opts": {k: (v if isinstance(v, (str, bool, list, dict)) else True) for k, v in opts.items() if k != "expect"}}
+            "opts": {k: (v if isinstance(v, (str, bool, list, dict)) else True) for k, v in opts.items()
+                     if k not in ("expect", "produce")}}
     nnz = sum(1 for r in inp["rows"] for x in r if x != "0")
     ctx.case({"table": inp, "generated_by": gen_by, "date": date_s},
              nontrivial=(len(inp["obs"]) * len(inp["samp"]) >= 2 or nnz >= 1))
@@ -522,14 +523,19 @@ def run_case(ctx, t, gen_by, date, tags=(), label=None, want_text=True, opts=Non
                 if ret is not None:
                     raise AssertionError("to_json(direct_io=...) returned %r" % (ret,))
                 return out
-            if opts.get("direct_first"):
+            if opts.get("produce"):
+                text, text_d = opts["produce"]()
+                with open(pd, "w", encoding="utf-8") as f:
+                    f.write(text_d)
+            elif opts.get("direct_first"):
                 text_d = write_direct()
                 text = write_string()
             else:
                 text = write_string()
                 text_d = write_direct()
         except Exception as e:  # noqa
-            ctx.fail(case, "to_json:raised", list(tags), detail="%s: %s" % (type(e).__name__, e))
+            ctx.fail(case, "convert:raised" if opts.get("produce") else "to_json:raised", list(tags),
+                     detail="%s: %s" % (type(e).__name__, e))
             return None
         try:
             toks = tokenize(text)
@@ -602,6 +608,8 @@ def run_case(ctx, t, gen_by, date, tags=(), label=None, want_text=True, opts=Non
             if os.path.exists(q):
                 os.remove(q)
     req = {"table": inp, "generated_by": gen_by, "date": date_s, "toks": toks, "toks_direct": toks_d, "reads": reads}
+    if opts.get("produce"):
+        req["single_form"] = True
     if want_text:
         req["text"] = text
         req["text_direct"] = text_d
@@ -803,6 +811,200 @@ def alias_case(ctx, rng, src, how, edit, tags):
         ctx.count("alias=%s" % how)
 
 
+# ----------------------------------------------------------------------------- `biom convert ... --to-json`
+CONVERT_TYPES = ["OTU table", "Pathway table", "Function table", "Ortholog table", "Gene table", "Metabolite table",
+                 "Taxon table", "Table"]
+
+
+def convert_spec(rng, omd, smd, n=None, m=None):
+    """a table every input format of the converter can carry (text / list-of-text metadata, tab-free IDs)"""
+    n = n or rng.randint(1, 4)
+    m = m or rng.randint(1, 4)
+    pool = ["GG_OTU-1.5", "o\"q", "back\\sl", "\u00e9\u65e5", "x y", "a,b", "{id}", "%s", "O_long_identifier_17", "o'q"]
+    rng.shuffle(pool)
+    obs = ["%s_%d" % (pool[i % len(pool)], i) for i in range(n)]
+    samp = ["S%d%s" % (j, rng.choice(["", ".a", "\"", "\u00b5", " b"])) for j in range(m)]
+    rows = [[rng.choice([0.0, 0.0, 1.0, 2.5, 1e-7, 0.1234567891, 12345678.0, -3.0, 5e-324]) for _ in range(m)] for _ in range(n)]
+    spec = {"obs": obs, "samp": samp, "rows": rows, "type": rng.choice([None, "OTU table", "Gene table"])}
+    spec["omd"] = [{"taxonomy": ["k__A", "p__%s" % rng.choice("xyz"), "g__\"q %d" % i]} for i in range(n)] if omd else None
+    if omd == "two-keys":
+        for i, e in enumerate(spec["omd"]):
+            e["note"] = "n\\%d; z" % i
+    if omd == "text-first":
+        spec["omd"] = [{"lineage": "k__A; p__%d ;g__x" % i, "note": "keep %d" % i} for i in range(n)]
+    spec["smd"] = [{"barcode": rng.choice(["ATGC", "GG\"TT"]), "env": "e%d" % j} for j in range(m)] if smd else None
+    return spec
+
+
+def write_convert_input(t, fmt, path):
+    import h5py
+    if fmt == "json":
+        with open(path, "w", encoding="utf-8") as f:
+            f.write(t.to_json("convert input"))
+    elif fmt == "json.gz":
+        with gzip.open(path, "wb") as f:
+            f.write(t.to_json("convert input").encode("utf-8"))
+    elif fmt == "hdf5":
+        with h5py.File(path, "w") as f:
+            t.to_hdf5(f, "convert input")
+    elif fmt == "tsv":
+        md = t.metadata(axis="observation")
+        key = list(md[0].keys())[0] if md is not None else None
+        fmt_f = (lambda x: "; ".join(x) if isinstance(x, (list, tuple)) else str(x))
+        with open(path, "w", encoding="utf-8") as f:
+            f.write(t.to_tsv(header_key=key, header_value=key, metadata_formatter=fmt_f))
+            f.write("\n")
+    else:
+        raise ValueError(fmt)
+
+
+def convert_case(ctx, rng, spec, fmt, flags, mapping=None, tags=(), obs_mapping=None):
+    """write `spec` as `fmt`, run the real `biom convert -i … -o … --to-json <flags>` (sub-command object, in
+    process) and judge the file it writes by the same predicate.  Expected content = what `load_table` reads from
+    the input, with the documented effect of the flags that apply to JSON output: --table-type (else a missing
+    type becomes "Table"), -m (sample metadata added), --process-obs-metadata (first observation category
+    re-parsed); --collapsed-*, --header-key, --output-metadata-id, --tsv-metadata-formatter do not apply."""
+    import biom.table as BT
+    import biom.parse
+    from biom import load_table
+    from biom.parse import MetadataMap
+    from click.testing import CliRunner
+    from biom.cli.table_converter import convert
+    os.makedirs(TMP, exist_ok=True)
+    base = os.path.join(TMP, "cv_%d" % os.getpid())
+    pin, pout, pmap, pomap = base + ".in", base + ".out", base + ".map", base + ".omap"
+    label = "convert:%s:%s" % (fmt, " ".join(flags) + (" -m" if mapping else "") +
+                               (" --observation-metadata-fp" if obs_mapping else ""))
+    try:
+        try:
+            t = core.build(spec, "dense")
+            write_convert_input(t, fmt, pin)
+            tin = load_table(pin)
+        except Exception as e:  # noqa   (writing / reading the other formats is not this property's business)
+            ctx.count("convert-input-skipped:%s" % type(e).__name__)
+            return
+        expect = table_input(tin)
+        expect["table_id"] = str(tin.table_id)     # what the input file carries ("None", or HDF5's placeholder)
+        args = ["-i", pin, "-o", pout, "--to-json"] + list(flags)
+        if "--table-type" in flags:
+            expect["type"] = flags[flags.index("--table-type") + 1]
+        elif expect["type"] in (None, "None"):
+            expect["type"] = "Table"
+        omd = None if tin.metadata(axis="observation") is None else [dict(m) for m in tin.metadata(axis="observation")]
+        smd = None if tin.metadata() is None else [dict(m) for m in tin.metadata()]
+        if mapping:
+            with open(pmap, "w", encoding="utf-8") as f:
+                f.write(mapping)
+            args += ["-m", pmap]
+            with open(pmap, encoding="utf-8") as f:
+                mm = MetadataMap.from_file(f)
+            ids = [str(i) for i in tin.ids()]
+            if smd is None:
+                smd = [dict(mm[i]) if i in mm else {} for i in ids]
+            else:
+                for i, e in zip(ids, smd):
+                    if i in mm:
+                        e.update(mm[i])
+            if all(not e for e in smd):
+                smd = None
+        if "--process-obs-metadata" in flags:
+            how = flags[flags.index("--process-obs-metadata") + 1]
+            key = list(omd[0].keys())[0]
+            for e in omd:
+                e[key] = e[key] if how == "naive" else [x.strip() for x in e[key].split(";")]
+            if obs_mapping:
+                # with --process-obs-metadata the observation mapping file is merged into the re-parsed entries
+                with open(pomap, "w", encoding="utf-8") as f:
+                    f.write(obs_mapping)
+                args += ["--observation-metadata-fp", pomap]
+                with open(pomap, encoding="utf-8") as f:
+                    om = MetadataMap.from_file(f)
+                for i, e in zip([str(i) for i in tin.ids(axis="observation")], omd):
+                    if i in om:
+                        e.update(om[i])
+        expect["omd"] = md_obs(omd, len(expect["obs"]))
+        expect["smd"] = md_obs(smd, len(expect["samp"]))
+
+        def produce():
+            if os.path.exists(pout):
+                os.remove(pout)
+            saved = os.dup(1)
+            old = BT.datetime
+            BT.datetime = _FixedDT
+            try:
+                res = CliRunner().invoke(convert, args)
+            finally:
+                BT.datetime = old
+                os.dup2(saved, 1)
+                os.close(saved)
+            if res.exception is not None and not isinstance(res.exception, SystemExit):
+                raise res.exception
+            if res.exit_code != 0:
+                raise RuntimeError("biom convert exit code %s: %s" % (res.exit_code, (res.output or "")[-300:]))
+            with open(pout, encoding="utf-8") as f:
+                text = f.read()
+            return text, text
+        o = {"produce": produce, "expect": expect, "extra": rng.sample(EXTRA_READERS[:6], 1),
+             "convert": {"spec": spec, "fmt": fmt, "flags": list(flags), "mapping": mapping, "obs_mapping": obs_mapping}}
+        run_case(ctx, None, biom.parse.generatedby(), None, tags=("convert", fmt) + tuple(tags), label=label, opts=o)
+        ctx.count("convert-from=" + fmt)
+        for fl in flags:
+            if fl.startswith("--"):
+                ctx.count("convert-flag=" + fl)
+        if mapping:
+            ctx.count("convert-flag=-m")
+    finally:
+        for q in (pin, pout, pmap, pomap):
+            if os.path.exists(q):
+                os.remove(q)
+
+
+def convert_flag_sets(rng, spec, fmt, tin_has_text_first):
+    """flag sets accepted together with --to-json for this input"""
+    sets = [[], ["--collapsed-observations"], ["--collapsed-samples"], ["--collapsed-observations", "--collapsed-samples"],
+            ["--table-type", rng.choice(CONVERT_TYPES)],
+            ["--header-key", "taxonomy"], ["--header-key", "taxonomy", "--output-metadata-id", "Consensus Lineage"],
+            ["--tsv-metadata-formatter", "naive"], ["--tsv-metadata-formatter", "sc_separated", "--collapsed-samples"],
+            ["--table-type", rng.choice(CONVERT_TYPES), "--collapsed-observations", "--header-key", "note",
+             "--tsv-metadata-formatter", "naive"]]
+    if spec["omd"] is not None:
+        sets.append(["--process-obs-metadata", "naive"])
+        if tin_has_text_first:
+            sets.append(["--process-obs-metadata", "sc_separated"])
+            sets.append(["--process-obs-metadata", "taxonomy", "--collapsed-samples", "--table-type", "Taxon table"])
+    return sets
+
+
+def convert_stream(ctx, rng):
+    md_cfgs = [(None, None), ("one", None), (None, True), ("one", True), ("two-keys", True), ("text-first", True)]
+    n_rand = 40 if ctx.quick() else 600
+    # systematic: every input format x metadata configuration x every flag set
+    for fmt in ("json", "hdf5", "tsv", "json.gz"):
+        for omd, smd in md_cfgs:
+            spec = convert_spec(rng, omd, smd)
+            # in a TSV the first observation category arrives as text; in JSON/HDF5 only "text-first" has a text value
+            text_first = (fmt == "tsv" and omd is not None) or omd == "text-first"
+            sets = convert_flag_sets(rng, spec, fmt, text_first)
+            if ctx.quick() and fmt == "json.gz":
+                sets = sets[:4]
+            for flags in sets:
+                convert_case(ctx, rng, spec, fmt, flags, tags=("systematic",))
+            ids = spec["samp"]
+            mapping = "#SampleID\tdepth\tsite name\n" + "".join("%s\t%d\tsite %d\n" % (i, 10 * k, k) for k, i in enumerate(ids[:-1] or ids))
+            convert_case(ctx, rng, spec, fmt, rng.choice(sets), mapping=mapping, tags=("systematic", "mapping"))
+            if spec["omd"] is not None and any('"' not in i for i in spec["obs"]):
+                omap = "#OTUID\tconfidence\n" + "".join("%s\t0.%d\n" % (i, k + 1) for k, i in enumerate(spec["obs"]) if '"' not in i)   # the mapping parser drops quotes
+                convert_case(ctx, rng, spec, fmt, ["--process-obs-metadata", "naive"], obs_mapping=omap,
+                             tags=("systematic", "obs-mapping"))
+    for _ in range(n_rand):
+        omd, smd = rng.choice(md_cfgs)
+        fmt = rng.choice(["json", "hdf5", "tsv", "json.gz"])
+        spec = convert_spec(rng, omd, smd, rng.randint(1, 6), rng.randint(1, 6))
+        text_first = (fmt == "tsv" and omd is not None) or omd == "text-first"
+        flags = rng.choice(convert_flag_sets(rng, spec, fmt, text_first))
+        convert_case(ctx, rng, spec, fmt, flags, tags=("random",))
+
+
 def run(ctx):
     ctx.rule = ("tables of 1..N x 1..M (N,M <= 6 quick / 9 thorough; plus 0x0) with chosen sparsity patterns (all-zero table, "
                 "fully dense, all-zero rows first/middle/last, all-zero columns), values over counts/dyadics/negatives/"
@@ -902,6 +1104,8 @@ def run(ctx):
     t, g, d = build_fixed("metadata-partial")
     check_refusal(ctx, t, rng)
     run_case(ctx, t, g, d, tags=("after-refusal",), label="after-refusal")
+    # the command-line front end that writes JSON
+    convert_stream(ctx, rng)
     # aliasing between live tables: systematic over the ways a table is derived
     for how in DERIVATIONS:
         for edit in (["mutate_dict_obs", "del_md_subset_samp", "transform_inplace", "update_ids_inplace"] if ctx.quick()
@@ -969,6 +1173,12 @@ def replay(ctx, rec):
     if label in FIXED:
         t, g, d = build_fixed(label)
         run_case(ctx, t, g, d, tags=("replay", label), label=label)
+        return
+    cv = (case.get("opts") or {}).get("convert")
+    if cv:
+        import random
+        convert_case(ctx, random.Random(0), cv["spec"], cv["fmt"], cv["flags"], mapping=cv.get("mapping"),
+                     obs_mapping=cv.get("obs_mapping"), tags=("replay",))
         return
     inp = case["table"]
 
